@@ -23,8 +23,11 @@
 (*               rank >= 2 are plain coordinates of their own (a pandas    *)
 (*               MultiIndex is one-dimensional).                           *)
 (*  LAW          selecting the entry of a coordinate that holds value v of *)
-(*               input x yields, in every variable that x labels, exactly  *)
-(*               elements whose term contains v at parameter x.            *)
+(*               input x yields, in every variable that x labels, only     *)
+(*               elements whose term contains v at parameter x (LawSelect) *)
+(*               - and all of them when input values are pairwise distinct *)
+(*               and x reaches the variable on no other path               *)
+(*               (LawSelectExact).                                         *)
 (*                                                                         *)
 (* Don't-care (both readings of "zipped inputs are combined" accepted, see *)
 (* AcceptableOn): the implementation builds the index per VARIABLE and     *)
